@@ -36,8 +36,9 @@ RULE = ('direct: 1-4 cal products from 1-2 streams (own channel counts and centr
         'into 2-3 parts whose solution times are random subsets of a common set, parts absent altogether), '
         'K zero/NaN solutions through katdal.open-equivalent data sets, shuffled bls_ordering, random selections; '
         'the corrections every input must get are derived from the SOLUTIONS by the harness and the spec is '
-        'evaluated on those; 60% of the data sets are reopened with preselect (channels [a,b), dumps [a,b) or '
-        'both) and compared with the fully opened one on the same dumps/channels; invert: complex '
+        'evaluated on those; every third case has a multi-part B with a part lacking a solution another part has, '
+        'every third is reopened with preselect on channels (+dumps), 60% of the rest with preselect (channels '
+        '[a,b), dumps [a,b) or both), and compared with the fully opened one on the same dumps/channels; invert: complex '
         'gains/delays/bandpasses, 75% also reopened with preselect.  A case is one configuration; non-trivial when '
         'at least one factor is finite and not 1 and (direct, v4) at least one factor is NaN or two products '
         'are combined; distinct by the whole configuration')
